@@ -1,9 +1,11 @@
 (* C07 — Allocation failure is reported as an error and leaves all state intact.
-   PARTIAL: proved for the arena (refused chunk request / overflow / claimed handle);
-   the collection-level clauses (push/insert/reserve/... keep length and contents) are not
-   modelled yet. *)
+   Proved for the arena (refused chunk request / overflow / claimed handle) and, at collection
+   level, for the capacity model of BumpVec / FixedBumpVec / MutBumpVec(Rev) (VecCap.v): a failed reserve / push /
+   extend leaves length and capacity as they were, an overflowing request is an error decided
+   without asking the allocator.  PARTIAL: strings and the contents after a
+   failure are probed on the implementation only. *)
 From Coq Require Import ZArith List.
-From BS Require Import Word BumpSpec ChunkSpec Arena ArenaInv ArenaStats ArenaMisc ArenaExt.
+From BS Require Import Word BumpSpec ChunkSpec Arena ArenaInv ArenaStats ArenaMisc ArenaExt VecCap VecCapProofs.
 Import ListNotations.
 Open Scope Z_scope.
 
@@ -61,6 +63,22 @@ Theorem C07_fresh_chunk_fits :
   ((align | size) -> chunk_prepare c (make_chunk c n addr g) size align <> None).
 Proof. exact make_chunk_fits. Qed.
 
+(* collection level (VecCap.v): whatever the operation, whatever the allocator answers, a failure
+   leaves length and capacity as they were, and the invariant holds either way *)
+Theorem C07_collection_failure_is_atomic :
+  forall fixed sz al s o grant shrunk got,
+  elem_ok sz al -> vinv sz al s -> got_ok sz got -> vop_ok o ->
+  let '(s', out) := vstep fixed sz al s o grant shrunk got in
+  vinv sz al s' /\ (vo_err out <> None -> s' = s).
+Proof. exact vstep_inv. Qed.
+
+Theorem C07_collection_overflow_is_error :
+  forall sz al s n grant shrunk got (exact : bool),
+  elem_ok sz al -> vinv sz al s -> 0 <= n -> IMAX < (vlen s + n) * sz ->
+  let '(s', out) := vstep false sz al s (if exact then VReserveExact n else VReserve n) grant shrunk got in
+  vo_err out = Some VOverflow /\ vo_asked out = false /\ s' = s.
+Proof. exact overflow_is_error_without_call. Qed.
+
 Print Assumptions C07_failed_alloc_keeps_current_chunk.
 Print Assumptions C07_fresh_chunk_fits.
 Print Assumptions C07_refused_is_error.
@@ -68,3 +86,5 @@ Print Assumptions C07_overflow_is_error.
 Print Assumptions C07_failed_alloc_keeps_live_and_memory.
 Print Assumptions C07_state_after_failure_satisfies_invariant.
 Print Assumptions C07_claimed_alloc_fails.
+Print Assumptions C07_collection_failure_is_atomic.
+Print Assumptions C07_collection_overflow_is_error.
